@@ -30,18 +30,20 @@ structure Case where
   peers : Src
   electrum : Src
   cs : List Src
+  ts : List Src
 
 def parseCase (line : String) : Option Case :=
   match splitWs line with
-  | ["cfg", n, p, e, c] =>
+  | ["cfg", n, p, e, c, t] =>
     match parseFlags n, p.toList, e.toList with
     | some f, [pc], [ec] =>
-      match parseSrc true false pc, parseSrc false false ec, c.toList.mapM (parseSrc false true) with
-      | some p, some e, some cs =>
-        if cs.length ≠ Gen.C44.contractNames.length then none
-        else if f.nilFlags && (usesFlag p || usesFlag e || cs.any usesFlag) then none
-        else some ⟨f, p, e, cs⟩
-      | _, _, _ => none
+      match parseSrc true false pc, parseSrc false false ec, c.toList.mapM (parseSrc false true),
+            t.toList.mapM (parseSrc false false) with
+      | some p, some e, some cs, some ts =>
+        if cs.length ≠ Gen.C44.contractNames.length || ts.length ≠ Gen.C44.electrumTimeoutFields then none
+        else if f.nilFlags && (usesFlag p || usesFlag e || cs.any usesFlag || ts.any usesFlag) then none
+        else some ⟨f, p, e, cs, ts⟩
+      | _, _, _, _ => none
     | _, _, _ => none
   | _ => none
 
@@ -54,16 +56,22 @@ def showVal (tbl : List String) : Val → String
 def showContract : Val → Char
   | .none => '-' | .file => 'f' | .flag => 'F' | .invalid => 'x' | .dflt _ => 'D'
 
+def showT : TVal → Char
+  | .file => 'f' | .flag => 'F' | .flagDefault => 'd' | .zero => '0'
+
+def parseT : Char → Option TVal
+  | 'f' => some .file | 'F' => some .flag | 'd' => some .flagDefault | '0' => some .zero | _ => none
+
 def showOut (o : Out) : String :=
   match o.rc with
   | .flags => "rc=err:flags"
   | rc =>
     let r := if rc = .ok then "ok" else "err:validation"
-    s!"rc={r} eth={o.eth} btc={o.btc} peers={showVal Gen.C44.networkNames o.peers} electrum={showVal Gen.C44.bitcoinNameOf o.electrum} contracts={String.ofList (o.contracts.map showContract)}"
+    s!"rc={r} eth={o.eth} btc={o.btc} peers={showVal Gen.C44.networkNames o.peers} electrum={showVal Gen.C44.bitcoinNameOf o.electrum} contracts={String.ofList (o.contracts.map showContract)} etimeouts={String.ofList (o.timeouts.map showT)}"
 
 def model (line : String) : String :=
   match parseCase line with
-  | some c => showOut (readConfig c.f c.peers c.electrum c.cs)
+  | some c => showOut (readConfig c.f c.peers c.electrum c.cs c.ts)
   | none => "bad-op"
 
 def field44 (obs key : String) : Option String :=
@@ -93,17 +101,18 @@ def monitor (op obs : String) : String :=
   | none => if obs = "bad-op" then "ok" else "FAIL bad-op-accepted"
   | some c =>
     if obs = "rc=err:flags" then
-      (if holds c.f c.peers c.electrum c.cs ⟨.flags, 0, 0, .none, .none, []⟩ then "ok"
+      (if holds c.f c.peers c.electrum c.cs c.ts ⟨.flags, 0, 0, .none, .none, [], []⟩ then "ok"
        else "FAIL accepted-flag-combination-rejected")
     else
     match field44 obs "rc", (field44 obs "eth").bind String.toNat?, (field44 obs "btc").bind String.toNat?,
           (field44 obs "peers").bind (parseVal Gen.C44.networkNames),
           (field44 obs "electrum").bind (parseVal Gen.C44.bitcoinNameOf),
-          (field44 obs "contracts").bind parseContracts with
-    | some rc, some eth, some btc, some p, some e, some cs =>
+          (field44 obs "contracts").bind parseContracts,
+          (field44 obs "etimeouts").bind (fun t => t.toList.mapM parseT) with
+    | some rc, some eth, some btc, some p, some e, some cs, some ts =>
       let rc' := if rc = "ok" then Rc.ok else Rc.validation
-      if holds c.f c.peers c.electrum c.cs ⟨rc', eth, btc, p, e, cs⟩ then "ok"
+      if holds c.f c.peers c.electrum c.cs c.ts ⟨rc', eth, btc, p, e, cs, ts⟩ then "ok"
       else "FAIL explicit-value-overridden-or-networks-inconsistent"
-    | _, _, _, _, _, _ => "FAIL unparsable-observation"
+    | _, _, _, _, _, _, _ => "FAIL unparsable-observation"
 
 def main (args : List String) : IO UInt32 := driverMain model monitor args
